@@ -1,6 +1,7 @@
 package main
 
 import (
+	"math/rand"
 	"fmt"
 	"go/types"
 	"os"
@@ -35,6 +36,10 @@ type Engine struct {
 
 	known   map[string]bool
 	tier    string
+	params  map[string]int // size parameters of the harness being run (vParam)
+	estimate int // > 0: number of random probes; no exhaustive exploration
+	paramMu sync.Mutex
+	paramSeen map[string][2]int // name -> (value used, default of this tier)
 	workers int
 
 	fnInfos sync.Map
@@ -219,6 +224,9 @@ type HarnessRun struct {
 	Unsupp    map[string]int
 	Limits    map[string]int
 	Covers    map[string]int
+	Params    map[string]int
+	EstSum, EstSq float64
+	estSeed   int64
 	Asserts   map[string]int
 	Known     map[string]int
 	Viol      []*Violation
@@ -305,6 +313,12 @@ func (e *Engine) RunHarness(name string, maxPaths int, timeout time.Duration) *H
 	var mu sync.Mutex
 	cond := sync.NewCond(&mu)
 	queue := [][]int{{}}
+	if e.estimate > 0 {
+		queue = make([][]int, e.estimate)
+		for i := range queue {
+			queue[i] = []int{}
+		}
+	}
 	active := 0
 	var wg sync.WaitGroup
 	for i := 0; i < e.workers; i++ {
@@ -401,6 +415,14 @@ func (e *Engine) execPath(w *Worker, h *HarnessRun, prefix []int) (newTasks [][]
 	w.sol.record = e.dumpDir != "" || os.Getenv("SYMGO_DUMP_UNKNOWN") != "" || os.Getenv("SYMGO_DUMP_SLOW") != ""
 	w.sol.script = w.sol.script[:0]
 	w.sol.Push()
+	if e.estimate > 0 {
+		h.mu.Lock()
+		h.estSeed++
+		seed := h.estSeed
+		h.mu.Unlock()
+		x.rng = rand.New(rand.NewSource(seed))
+		x.estProd = 1
+	}
 	outcome := "completed"
 	var msg string
 	func() {
@@ -470,6 +492,10 @@ func (e *Engine) execPath(w *Worker, h *HarnessRun, prefix []int) (newTasks [][]
 	w.sol.PopTo(0)
 	h.mu.Lock()
 	h.Paths++
+	if e.estimate > 0 {
+		h.EstSum += x.estProd
+		h.EstSq += x.estProd * x.estProd
+	}
 	h.Decisions += x.decisions
 	h.Steps += int64(x.steps)
 	h.Unknowns += x.unknowns
@@ -566,4 +592,13 @@ func (x *Exec) describeLazy(lz *Lazy, d int) string {
 		return "int"
 	}
 	return "?"
+}
+
+func (e *Engine) noteParam(name string, val, def int) {
+	e.paramMu.Lock()
+	if e.paramSeen == nil {
+		e.paramSeen = map[string][2]int{}
+	}
+	e.paramSeen[name] = [2]int{val, def}
+	e.paramMu.Unlock()
 }
